@@ -247,13 +247,22 @@ func DecodeStream(r Getter, path *CycleCheck, x *Stream) (io.ReadCloser, error) 
 		}
 	}
 
+	// every stage's reader is closed exactly once, by us: several filter
+	// readers do not close their source, so closing only the outermost one
+	// would leave helper goroutines of lower stages (DCTDecode) running
+	var stages []io.Closer
 	for _, fi := range filters {
-		out, err = fi.Decode(v, out, budget)
+		next, err := fi.Decode(v, out, budget)
 		if err != nil {
+			for i := len(stages) - 1; i >= 0; i-- {
+				stages[i].Close()
+			}
 			return nil, src.promote(err)
 		}
+		stages = append(stages, next)
+		out = next
 	}
-	return &sourceAwareReader{inner: out, src: src}, nil
+	return &sourceAwareReader{inner: out, src: src, stages: stages}, nil
 }
 
 // sourceErrChecker wraps the raw byte source underlying a decoded PDF
@@ -299,6 +308,10 @@ func (s *sourceErrChecker) promote(err error) error {
 type sourceAwareReader struct {
 	inner io.ReadCloser
 	src   *sourceErrChecker
+
+	// stages holds the reader of every filter stage, innermost first; the
+	// last one is inner
+	stages []io.Closer
 }
 
 func (s *sourceAwareReader) Read(p []byte) (int, error) {
@@ -309,7 +322,13 @@ func (s *sourceAwareReader) Read(p []byte) (int, error) {
 	return n, err
 }
 
-func (s *sourceAwareReader) Close() error { return s.inner.Close() }
+func (s *sourceAwareReader) Close() error {
+	err := s.inner.Close()
+	for i := len(s.stages) - 2; i >= 0; i-- {
+		s.stages[i].Close()
+	}
+	return err
+}
 
 // GetFilters extracts the information contained in the /Filter and
 // /DecodeParms entries of a stream dictionary.
